@@ -180,7 +180,7 @@ def oc_family(tier):
             ("pre", "s: r Q;\nr: P (%s);\n"), ("loop", "s: (r)* D;\nr: %s;\n"), ("start", "s: %s;\n"),
             ("elided", "s: r+ D;\nr^: %s;\n"), ("create", "s: P <1 r 1>y Q;\nr: %s;\n"),
             ("prepost", "s: r Q;\nr: P (%s) Q;\n"), ("presib", "s: r t2;\nr: P (%s);\nt2: A D;\n"),
-            ("condel", "s: r+ D;\nr: (%s) [Q ^];\n")]
+            ("condel", "s: P r D;\nr: (%s) [Q ^];\n")]
     triples = [(i, j, c) for i in range(len(firsts)) for j in range(len(lasts)) for c in range(len(ctxs))]
     if tier != "quick":
         # thorough: every third triple of the full product (405 grammars) on top of the pairwise cover
